@@ -529,6 +529,18 @@ exec_c14(const vcase *vc)
 				vr_tag("sabotaged_handshake");
 			if (c.hs == HS_GOOD && !c.hs_ok)
 				vr_fail("C14:listener-stopped-accepting", "listener %d (kind %d): a well-behaved peer got no handshake reply", (int) li, L.kind);
+		} else if (strcmp(n, "restart") == 0) {
+			// a dialer that was started stays started (it is redialing in the background): a second start is refused,
+			// whatever happened to its dials so far - otherwise two connect chains run and it ends up with two pipes
+			if (W.dia.empty() || !W.sock_open)
+				continue;
+			Dia &D = W.dia[(size_t) vop_arg(o, 0, 0) % W.dia.size()];
+			if (!D.open)
+				continue;
+			int rv = nng_dialer_start(D.d, NNG_FLAG_NONBLOCK);
+			VR_CHECK(rv == NNG_ESTATE, "C14:dialer-started-twice", "nng_dialer_start on a dialer that is already started (reconnect min %d max %d, %d attempts so far) -> %d (%s), expected NNG_ESTATE",
+			    D.mint, D.maxt, D.attempts, rv, nng_strerror((nng_err) rv));
+			vr_tag("second_start_refused");
 		} else if (strcmp(n, "rlisten") == 0) {
 			if (W.dia.empty())
 				continue;
@@ -829,10 +841,14 @@ genOp()
 {
 	return gen::exec([]() {
 		std::ostringstream o;
-		int k = *pbt::welem<int>({{3, 0}, {4, 1}, {6, 2}, {3, 3}, {2, 4}, {4, 5}, {3, 6}, {1, 7}, {1, 8}, {2, 9}, {3, 10}, {6, 11}, {1, 12}, {1, 13}, {3, 14}, {4, 15}, {1, 16}});
+		int k = *pbt::welem<int>({{3, 0}, {4, 1}, {6, 2}, {3, 3}, {2, 4}, {4, 5}, {3, 6}, {1, 7}, {1, 8}, {2, 9}, {3, 10}, {6, 11}, {1, 12}, {1, 13}, {3, 14}, {4, 15}, {1, 16}, {2, 17}, {2, 18}});
 		switch (k) {
+		case 17: o << "restart " << *pbt::range<int>(0, 2); break;
+		case 18: // a reconnect maximum that is not min * 2^k, towards an address where nobody listens at first
+			o << "dial " << *pbt::welem<int>({{3, 1}, {1, 2}}) << " 80 " << *gen::element(100, 110) << " 0\nwait " << *gen::element(400, 900) << "\nrlisten " << *pbt::range<int>(0, 2) << " 1";
+			break;
 		case 0: o << "lis " << *pbt::range<int>(0, 2); break;
-		case 1: o << "dial " << *pbt::welem<int>({{3, 1}, {1, 2}}) << " " << *gen::element(5, 10, 20, 80) << " " << *gen::element(0, 0, 10, 40, 160) << " " << *pbt::welem<int>({{3, 1}, {1, 0}}); break;
+		case 1: o << "dial " << *pbt::welem<int>({{3, 1}, {1, 2}}) << " " << *gen::element(5, 10, 20, 80) << " " << *gen::element(0, 0, 10, 40, 160, 25, 70, 100) << " " << *pbt::welem<int>({{3, 1}, {1, 0}}); break;
 		case 2: o << "conn " << *pbt::range<int>(0, 2) << " " << *pbt::welem<int>({{6, 0}, {1, 1}, {1, 2}, {1, 3}, {1, 4}}); break;
 		case 3: o << "rlisten " << *pbt::range<int>(0, 2) << " " << *pbt::range<int>(0, 1); break;
 		case 4: o << "policy " << *pbt::range<int>(0, 2) << " " << *pbt::welem<int>({{4, 0}, {2, 1}, {2, 2}, {1, 3}, {1, 4}}); break;
